@@ -832,7 +832,8 @@ class SegmentationImage:
 
         old_slices = self.__dict__.get('slices', None)
         dtype = self.data.dtype  # keep the original dtype
-        new_labels = np.arange(self.nlabels, dtype=dtype) + start_label
+        # int() keeps the array dtype when start_label is a numpy scalar
+        new_labels = np.arange(self.nlabels, dtype=dtype) + int(start_label)
         new_label_map = np.zeros(int(self.max_label) + 1, dtype=dtype)
         new_label_map[self.labels] = new_labels
 
